@@ -217,7 +217,7 @@ pub fn legacy() -> String {
 pub fn by_name(names: &[String]) -> String {
     let mut o = String::from("query TypesByName {\n");
     for (i, n) in names.iter().enumerate() {
-        o.push_str(&format!("  t{i}: __type(name: {}) {{\n    ...FullType\n  }}\n", vh_model::quote(n)));
+        o.push_str(&format!("  t{i}: __type(name: {}) {{\n    ...FullType\n  }}\n", vh_model::types::quote(n)));
     }
     o.push_str("}\n");
     o.push_str(FULL_TYPE);
